@@ -102,9 +102,18 @@ class C17(WigBedProp):
         d = os.path.join(workdir, "cli")
         os.makedirs(d, exist_ok=True)
         nrun = 0
-        for k in range(8 if tier == "thorough" else 3):
+        nfiles = 8 if tier == "thorough" else 3
+        for k in range(nfiles + 1):
             r = rng.fork(k)
             names, sizes, data, _ = bbgen.gen_wig_input(r, nchrom=4, value_mode="int", maxn=30)
+            foreign = (k == nfiles)
+            if foreign:
+                # a bigWig as the UCSC tools write it from input in natural order: the chromosome tree is sorted by name while the
+                # ids follow the order of appearance (chr1 = 0, chr2 = 1, chr10 = 2, chrX = 3) — from the independent encoder
+                nat = ["chr1", "chr2", "chr10", "chrX"]
+                data = {nn: data[o] for nn, o in zip(nat, names)}
+                sizes = {nn: sizes[o] for nn, o in zip(nat, names)}
+                names = nat
             if k == 2:
                 # 300 small chromosomes, default options: more data sections than the index's fan-out, so the index has an upper
                 # level whose entries span chromosome boundaries
@@ -120,7 +129,23 @@ class C17(WigBedProp):
                     for (s, e, b) in data[n]:
                         f.write(f"{n}\t{s}\t{e}\t{bbgen.bits_f32(b)}\n")
             bw = os.path.join(d, f"i{k}.bw")
-            subprocess.run([repo_bin("bedgraphtobigwig"), bg, sz, bw], capture_output=True)
+            if foreign:
+                import bbi_codec
+                tree = sorted(names)                                  # chr1, chr10, chr2, chrX
+                spec = dict(endian=r.choice(["little", "big"]), version=4, compress=True, chroms=[[n, sizes[n]] for n in tree],
+                            ids=[nat.index(n) for n in tree], chrom_block_size=2, rtree_block_size=r.choice([2, 256]), rtree_layout="level_order",
+                            items_per_slot=8, zooms=[],
+                            sections=sorted([dict(chrom=nat.index(n), type=1, items=[[a, b, bbgen.bits_f32(v)] for (a, b, v) in data[n][i:i + 8]])
+                                             for n in names for i in range(0, len(data[n]), 8)], key=lambda s_: s_["chrom"]))
+                img = bbi_codec.encode_bigwig(spec)
+                bad = bbi_codec.check(img)
+                if bad:
+                    rep.notes.append("C17: the independent encoder's file was rejected by the independent judge: " + bad[0][:100])
+                    continue
+                open(bw, "wb").write(img)
+                rep.tag("foreign_file_ids_in_order_of_appearance")
+            else:
+                subprocess.run([repo_bin("bedgraphtobigwig"), bg, sz, bw], capture_output=True)
             nreg = r.choice([3, 40, 200]) if k != 2 else 400          # fewer regions than threads, and many more
             if k == 1:
                 nreg = 6000                        # ≈ 150 KiB of BED text: every worker's chunk spans several buffer refills
